@@ -184,18 +184,41 @@ def run(P, R, tier):
         for n_ in walk_own(g.node):
             if isinstance(n_, ast.Name) and isinstance(n_.ctx, ast.Store):
                 local.add(n_.id)
+        from effects import is_fresh_expr
+
+        def captured(name, depth=0, g=g, local=local):
+            if name in g.params:
+                return False
+            if name not in local:
+                return True
+            if depth > 4:
+                return False
+            for d in astq.assignments(g, name):
+                if d[0] != 'expr':
+                    # loop variables / unpacking: elements of the iterable
+                    src = d[1].iter if d[0] == 'iter' else d[1]
+                    bb = base_name(src) if isinstance(src, ast.AST) else None
+                    if bb is not None and captured(bb, depth + 1):
+                        return True
+                    continue
+                if is_fresh_expr(d[1]):
+                    continue
+                bb = base_name(d[1])
+                if bb is not None and bb != name and captured(bb, depth + 1):
+                    return True
+            return False
         dirty = []
         for c in astq.own_calls(g):
             if isinstance(c.func, ast.Attribute) and any(c.func.attr == m or c.func.attr.startswith(m + '_') for m in MUT):
                 b_ = base_name(c.func.value)
-                if b_ is not None and b_ not in local and not astq.fs_call(c):
+                if b_ is not None and captured(b_) and not astq.fs_call(c):
                     dirty.append(c)
         for n_ in walk_own(g.node):
             if isinstance(n_, (ast.Assign, ast.AugAssign)):
                 for t in (n_.targets if isinstance(n_, ast.Assign) else [n_.target]):
                     if isinstance(t, (ast.Subscript, ast.Attribute)):
                         b_ = base_name(t)
-                        if b_ is not None and b_ not in local:
+                        if b_ is not None and captured(b_):
                             dirty.append(n_)
         if dirty:
             for c in dirty:
